@@ -127,10 +127,29 @@ func handle(p *pkt) string {
 	for attempt := 0; ; attempt++ {
 		ans, retry := handleOnce(p, cfg, data)
 		if !retry || attempt >= 2 {
+			// (only where an answer is at all plausible: a decodable NTP payload over UDP, or SCMP —
+			// garbage that is silently dropped the first time is not worth a second run)
+			if ans == "ok drop" && (p.l4 == "scmp" || p.l4 == "udp" && p.ntp == "ok") {
+				// Silence is the one outcome a loaded machine can fake (a reply that is still on its
+				// way when the sentinel's answer arrives, a listener socket that was not yet in the
+				// SO_REUSEPORT group when the datagram was hashed): confirm it once, in isolation,
+				// after letting stragglers arrive; a reply or forward seen then is the real outcome.
+				time.Sleep(2 * time.Millisecond)
+				keep := last
+				if ans2, retry2 := handleOnce(p, cfg, data); !retry2 && ans2 != "ok drop" {
+					dropsRefuted++
+					return ans2
+				}
+				last = keep
+			}
 			return ans
 		}
 	}
 }
+
+// dropsRefuted counts silent outcomes that the confirmation run turned into a reply / forward
+// (reported in the run's counters: a measure of how loaded the machine was)
+var dropsRefuted int
 
 func handleOnce(p *pkt, cfg childCfg, data []byte) (ans string, retry bool) {
 	ch, err := getChild(cfg)
